@@ -75,6 +75,7 @@ _quick = set(family.kind_tags("quick"))
 for _t in family.kind_tags("thorough"):
     _u = family.leaf_unit(_t)
     _u.tier = "quick" if _t in _quick else "thorough"
+    _u.props = ["C01", "C02", "C07", "C14"]
     _mk_unit(_u)
 for _u in family.composite_units():
     if _u.name == "composite:enum-default-nonzero":
@@ -119,3 +120,10 @@ def _mk_pair(name, s1, m1, s2, m2, project):
 
 for _pair in family.evolution_pairs():
     _mk_pair(*_pair)
+
+
+# ------------------------------------------------------------------ C12: rewrite variants (each proved against its own layout)
+for _name, _schema, _top, _vmap in family.rewrite_variants():
+    _u = family.Unit("rewrite:" + _name, _schema, [_top], tags=("rewrite", "traditional"))
+    _u.props = ["C12"]
+    _mk_unit(_u)
